@@ -964,7 +964,8 @@ func (s *sharedEntryAttributes) validateRange(resultChan chan<- *types.Validatio
 // validateLeafListMinMaxAttributes validates the Min-, and Max-Elements attribute of the Entry if it is a Leaflists.
 func (s *sharedEntryAttributes) validateLeafListMinMaxAttributes(resultChan chan<- *types.ValidationResultEntry) {
 	if schema := s.schema.GetLeaflist(); schema != nil {
-		if schema.MinElements > 0 {
+		// min-elements and max-elements are independent of each other, either of them might be defined
+		if schema.MinElements > 0 || schema.MaxElements > 0 {
 			if lv := s.leafVariants.GetHighestPrecedence(false, true); lv != nil {
 				tv, err := lv.Update.Value()
 				if err != nil {
@@ -976,7 +977,8 @@ func (s *sharedEntryAttributes) validateLeafListMinMaxAttributes(resultChan chan
 						resultChan <- types.NewValidationResultEntry(lv.Owner(), fmt.Errorf("leaflist %s defines %d min-elements but only %d elements are present", s.Path().String(), schema.MinElements, len(val.GetElement())), types.ValidationResultEntryTypeError)
 					}
 					// check maxelements if set
-					if len(val.GetElement()) > int(schema.GetMaxElements()) {
+					// max-elements unbounded is expressed as the max uint64 value, so compare as uint64
+					if schema.MaxElements > 0 && uint64(len(val.GetElement())) > schema.GetMaxElements() {
 						resultChan <- types.NewValidationResultEntry(lv.Owner(), fmt.Errorf("leaflist %s defines %d max-elements but %d elements are present", s.Path().String(), schema.GetMaxElements(), len(val.GetElement())), types.ValidationResultEntryTypeError)
 					}
 				}
